@@ -273,7 +273,10 @@ ModifyInPlaceF(st, p, b) ==
 \* as a file named c in the ISO9660 tree and in the Joliet/UDF trees the image carries; later calls
 \* add a section entry to the existing catalog.
 MaxSections == 31
-AddEltoritoF(st, bp, c) ==
+\* media: "noemul" | "floppy" | "hdemul" | anything else is not a media type; for "floppy" the boot
+\* file must be a floppy image (1.2, 1.44 or 2.88 MB), which no content of the model is
+BadBootParam(media) == media # "noemul"
+AddEltoritoF(st, bp, c, media) ==
     IF st.phase # "live" THEN Refuse("bad_state")
     ELSE IF bp = Root \/ bp \notin DOMAIN st.iso THEN Refuse("iso_missing")
     ELSE IF st.iso[bp].k = "symlink" THEN [out |-> "unsupported", why |-> "symlink_as_boot_file", acc |-> st, alt |-> st]
@@ -282,6 +285,7 @@ AddEltoritoF(st, bp, c) ==
     \* an empty boot file owns no sector a catalog entry could point at: outside the model
     ELSE IF st.blob[st.iso[bp].ino] \in DOMAIN BlobLen /\ BlobLen[st.blob[st.iso[bp].ino]] = 0
          THEN [out |-> "unsupported", why |-> "empty_boot_file", acc |-> st, alt |-> st]
+    ELSE IF BadBootParam(media) THEN Refuse("bad_boot_param")
     ELSE IF st.elt.on
          THEN IF Len(st.elt.entries) > MaxSections THEN Refuse("too_many_sections")
               ELSE Ok([st EXCEPT !.elt.entries = Append(@, st.iso[bp].ino)])
@@ -363,7 +367,7 @@ RawStep(st, a) ==
       [] a.a = "ClearHidden"  -> HiddenF(st, a.ns, a.p, FALSE)
       [] a.a = "AddSymlink"   -> AddSymlinkF(st, a.iso, a.udf, a.t)
       [] a.a = "DuplicatePvd" -> DuplicatePvdF(st)
-      [] a.a = "AddEltorito"  -> AddEltoritoF(st, a.boot, a.cat)
+      [] a.a = "AddEltorito"  -> AddEltoritoF(st, a.boot, a.cat, a.media)
       [] a.a = "RmEltorito"   -> RmEltoritoF(st)
       [] a.a = "ModifyInPlace" -> ModifyInPlaceF(st, a.p, a.blob)
       [] a.a \in ScheduleActs -> ScheduleF(st, a)
